@@ -88,6 +88,20 @@ def run_case(case, bus, ex):
                     continue
                 bus.judge("reference_value", rel(got, ref) if ref != 0 else abs(got), TOL * (10 if opts else 1), (name, tuple(sorted(opts))) + sigb,
                           sample=dict(info, function=name, options=opts, value=got), witness=dict(info, function=name, options=opts, got=got, ref=ref))
+        # ---------------- general norms with non-standard exponents (inner p, outer q; default q = 1/p)
+        for pq in ((3.0, None), (1.5, 2.0), (4.0, 0.25)):
+            p_, q_ = pq
+            qq = (1 / p_) if q_ is None else q_
+            for mode in ("absolute", "normalized", "symmetric"):
+                got = float(M.spatial_norm(J(u), J(v), mode=mode, domain_extent=L, inner_exponent=p_, outer_exponent=q_))
+                bus.judge("reference_value", rel(got, MR.spatial(u, v, L, p_, qq, mode)), TOL, ("spatial_norm", p_, q_, mode) + sigb, witness=dict(info, function="spatial_norm", p=p_, q=q_, mode=mode))
+            for mode in ("absolute", "normalized"):
+                got = float(M.fourier_norm(J(u), J(v), mode=mode, domain_extent=L, inner_exponent=p_, outer_exponent=q_))
+                ref, loss = MR.fourier(u, v, L, p_, qq, mode)
+                if loss > 1e-13:
+                    bus.outside("reference_value", "floor active")
+                    continue
+                bus.judge("reference_value", rel(got, ref), TOL, ("fourier_norm", p_, q_, mode) + sigb, witness=dict(info, function="fourier_norm", p=p_, q=q_, mode=mode))
         # ---------------- Parseval: spatial == Fourier for the p = 2 family (documented)
         for sname, fname in (("MSE", "fourier_MSE"), ("RMSE", "fourier_RMSE"), ("nMSE", "fourier_nMSE"), ("nRMSE", "fourier_nRMSE")):
             a, b = float(getattr(M, sname)(J(u), J(v), domain_extent=L)), float(getattr(M, fname)(J(u), J(v), domain_extent=L))
